@@ -204,7 +204,7 @@ class TlsApplicationDataMessage(TlsSubprotocolMessageBase):
         return TlsApplicationDataMessage(bytearray(parsable)), len(parsable)
 
     def compose(self):
-        return self.data
+        return bytearray(self.data)
 
 
 class TlsHandshakeType(enum.IntEnum):
